@@ -38,4 +38,13 @@ def error_types():
         dict(src='src/de_error.rs', path='enum TransformReason'),
         dict(src='src/de_error.rs', path='struct CroppedRegion'),
         dict(src='src/de_error.rs', path='enum Error'),
+        dict(src='src/de_error.rs', path='impl Error/fn eof',
+             ensures=[('value', 'r == (Error::Eof { location: Location::UNKNOWN })')], vacuity=False),
+        dict(src='src/de_error.rs', path='impl Error/fn unexpected',
+             ensures=[('value', 'r == (Error::Unexpected { expected: what, location: Location::UNKNOWN })')], vacuity=False),
+        dict(src='src/de_error.rs', path='impl Error/fn unknown_anchor',
+             ensures=[('value', 'r == (Error::UnknownAnchor { location: Location::UNKNOWN })')], vacuity=False),
+        # with_location: or-patterns binding `&mut` fields are outside Verus; assumed: the error kind is kept
+        dict(src='src/de_error.rs', path='impl Error/fn with_location', trusted=True,
+             ensures=[('keeps_kind', 'error_kind_same(self, r)')]),
     ]
